@@ -1,6 +1,7 @@
 """C07 — garbage collection fails closed."""
 from __future__ import annotations
 
+import os
 import random
 from typing import List, Optional
 
@@ -53,7 +54,7 @@ def gen(rng: random.Random, tier: str, idx: int) -> dict:
     return {"backend": backend, "setup": setup, "mode": mode, "exc": exc, "burst": burst,
             "dead_writer": rng.random() < 0.8, "dead_at": rng.choice(["META", "HINT", "HINT"]),
             "dead_op": rng.choice(["rewrite", "drop_oldest", "expire_old"]),
-            "open_tx": rng.random() < 0.7, "grace_ms": rng.choice([0, 0, 3600000]), "staged_young": rng.random() < 0.7,
+            "open_tx": rng.random() < 0.7, "open_tx_nested": rng.random() < 0.4, "grace_ms": rng.choice([0, 0, 3600000]), "staged_young": rng.random() < 0.7,
             "points": None, "sample": 8 if tier == "quick" else None,
             "k_seed": rng.randrange(1 << 30)}
 
@@ -105,7 +106,11 @@ def _gc_phase(plan, scratch, seed, snap, faults):
     ph.sim.keep_steplog = True
     ops = []
     if plan.get("open_tx"):
-        ops.append({"kind": "tx_open", "id": 0, "tag": "otx", "n": 1})
+        if plan.get("open_tx_nested"):
+            # the open transaction registered a pre-built file living in a sub-directory of data/
+            ops.append({"kind": "tx_open", "id": 0, "tag": "otx", "n": 1, "prebuilt": True, "dir": "p=9"})
+        else:
+            ops.append({"kind": "tx_open", "id": 0, "tag": "otx", "n": 1})
     ops += [{"kind": "sleep", "dt": 7200.0}]
     if plan.get("staged_young"):
         # a pre-built file staged for a later append_files: unreachable, no marker, protected only by its age
@@ -166,6 +171,9 @@ def execute(plan: dict, scratch: str, replay: Optional[dict] = None) -> dict:
         elif mode == "damage":
             files = [f"metadata/{truth['state'].pointer}"] + sorted(truth["reach"]["lists"]) + sorted(truth["reach"]["manifests"])
             cand = [["damage", f, how] for f in files for how in ("missing", "truncate", "noise", "half", "json_empty")]
+            # the in-flight markers themselves: emptied, replaced by noise, or emptied AND carrying a legacy-style name
+            # (`<data file basename>.inflight`, what older writers used - then without payload, for files directly in data/)
+            cand += [["damage", m, how] for m in sorted(truth["markers"]) for how in ("marker_empty", "noise", "marker_legacy_empty")]
         else:
             cand = [["listing", s[1], pos, ent] for s in gsteps if s[3] == "list_result"
                     for pos in ("start", "mid", "end")
@@ -204,6 +212,8 @@ def _damage(w: world.World, rel: str, how: str) -> bool:
         new = data[: len(data) // 2]
     elif how == "json_empty":
         new = b"{}"      # well-formed JSON, but not a metadata file / manifest list / manifest
+    elif how in ("marker_empty", "marker_legacy_empty"):
+        new = b""
     else:
         new = bytes((b * 131 + 17) % 256 for b in data[:64]) * 2
     if w.backend == "local":
@@ -225,6 +235,22 @@ def _damage(w: world.World, rel: str, how: str) -> bool:
             from dsim.s3fake import Obj
             old = b[key]
             b[key] = Obj(new, old.mtime, "damage")
+    if rel.endswith(".inflight"):
+        if how == "marker_legacy_empty":
+            # give the emptied marker the name an older writer would have used for the same target
+            import json as _json
+            try:
+                tgt = _json.loads(data.decode("utf-8")).get("file_path", "")
+            except Exception:
+                tgt = ""
+            legacy = rel.rsplit("/", 1)[0] + "/" + (tgt.rsplit("/", 1)[-1] or "x") + ".inflight"
+            if w.backend == "local":
+                os.replace(os.path.join(w.root, rel), os.path.join(w.root, legacy))
+            else:
+                b = w.store.bucket(w.bucket)
+                key = f"{w.prefix}/{rel}" if w.prefix else rel
+                b[(f"{w.prefix}/{legacy}" if w.prefix else legacy)] = b.pop(key)
+        return True      # an emptied / garbled marker is unreadable by definition
     # must be unparseable for the independent reader, else it is outside the statement
     rd = ir.Reader()
     try:
